@@ -14,6 +14,7 @@ pub mod c12;
 pub mod c13;
 pub mod c16;
 pub mod c18;
+pub mod c19;
 pub mod c20;
 
 pub struct Check {
@@ -88,6 +89,11 @@ pub fn lookup(id: &str) -> Option<Check> {
             id: "C18",
             level: "exploration",
             run: c18::run,
+        },
+        Check {
+            id: "C19",
+            level: "exploration",
+            run: c19::run,
         },
         Check {
             id: "C20",
